@@ -456,8 +456,15 @@ def collect_inputs_for_node(
     Returns:
         Dict mapping input names to their values
     """
+    from hypergraph.nodes.graph_node import GraphNode
+
     inputs = {}
     for param in node.inputs:
+        if isinstance(node, GraphNode) and get_value_source(param, node, graph, state, provided_values)[0] == ValueSource.DEFAULT:
+            # The nested graph resolves its own signature defaults: every inner
+            # consumer (and every item of a map_over) gets a private copy, as in
+            # the flat graph, instead of sharing the one made for the wrapper.
+            continue
         inputs[param] = _resolve_input(param, node, graph, state, provided_values)
     return inputs
 
